@@ -84,7 +84,7 @@ CLAIMED = {
             'Trusted: TLC/SANY, the projection (harness/project.py: integers, rationals with denominator <= 100, hex otherwise), the argument conversion in harness/core_driver.py. Values are exact rationals; cells whose exact value cannot be identified from the float (denominator > 100, float32 magnitude > 2000, float32 variance, 32-bit overflow guards Dec_*) are not decided. Plotting, projections (pyproj missing) and xarray export are out of reach.',
             'program traces validated against PncCore'),
     'C05': ('5/C05, 3.6',
-            'Part 1 (heap): in recorded programs over templates T1-T6 (T6 holds NaN/inf) with queries (repr, dump, getTimes, val2idx, time2idx, date2num, save), mask(invalid=True) steps and a write into every variable of each new file, PncCore_Trace.tla requires the projection of every other live object to be unchanged after every call. Part 2 (handles): TLC checks OthersStayValid, NoSharedHandle and OnlyOwnerReleases on spec/NcHandles.tla over every open/close/drop/finalise schedule of 3 objects (6 steps quick, 7 thorough) with id recycling; emitted schedules are replayed on real disk files through netcdf(), ioapi(), pncopen() and save() in one forked process each and the logged ids, finalisations (weak references) and reads are validated by spec/NcHandles_Trace.tla.',
+            'Part 1 (heap): in recorded programs over templates T1-T6 (T6 holds NaN/inf) with queries (repr, dump, getTimes, val2idx, time2idx, date2num, save), mask(invalid=True) steps and a write into every variable of each new file, also through the string forms slice_dim / reduce_dim / convolve_dim / mask_vals / pncexpr of core/_functions.py (known finding C05_K1: pncexpr wraps the variables of its input), PncCore_Trace.tla requires the projection of every other live object to be unchanged after every call. Part 2 (handles): TLC checks OthersStayValid, NoSharedHandle and OnlyOwnerReleases on spec/NcHandles.tla over every open/close/drop/finalise schedule of 3 objects (6 steps quick, 7 thorough) with id recycling; emitted schedules are replayed on real disk files through netcdf(), ioapi(), pncopen() and save() in one forked process each and the logged ids, finalisations (weak references) and reads are validated by spec/NcHandles_Trace.tla.',
             'Trusted: TLC, weakref observation of finalisation, the read probe. Partial collections are covered in the model only.',
             'schedule enumeration + trace validation'),
     'C15': ('5/C15, 3.5',
